@@ -213,10 +213,16 @@ MUTANTS = [
     ("array-space-add-returns-operand", {"C10": "A9.pure", "C13": "A9.pure"}, [(NS, "    def _inner_prod(self, x, y):\n        return np.dot(np.ravel(x), np.ravel(y))\n", "    def _inner_prod(self, x, y):\n        return np.dot(np.ravel(x), np.ravel(y))\n\n    def _add(self, x, y):\n        return x + y if np.any(y) else x\n")]),
     ("pad-vjp-stages-a-generator", {"C19": "A10", "C10": "A10"}, [(NV, "    return lambda g: _unpad(g, pad_width)", "    widths = _pad_pairs(pad_width)\n    return lambda g: g[tuple(slice(l, -u or None) for l, u in widths)]"), (NV, "def pad_vjp(ans, array, pad_width, mode, **kwargs):", "def _pad_pairs(width):\n    return ((w[0], w[1]) for w in width)\n\n\ndef pad_vjp(ans, array, pad_width, mode, **kwargs):")]),
     ("chooser-jvp-masks-tangent-in-place", {"C02": "A9.inplace", "C10": "A9.inplace"}, [(NJ, "    chosen_locations = x == ans\n    return anp.sum((g * chosen_locations), axis=axis, keepdims=keepdims)", "    chosen_locations = x == ans\n    g *= chosen_locations\n    return anp.sum(g, axis=axis, keepdims=keepdims)")]),
+    ("checker-reseeds-before-probes", {"C18": "A18.rng"}, [(TUF, "    x_v, y_v = x_vs.randn(), y_vs.randn()", "    import numpy\n\n    numpy.random.seed(0)\n    x_v = x_vs.randn()\n    numpy.random.seed(0)\n    y_v = y_vs.randn()")]),
+    ("dot-adjoint-kind-by-dtype-equality", {"C09": "A4.dtypecmp", "C05": "A4.dtypecmp"}, [(NV, "    return onp.asarray(out, dtype=A_dtype)", "    if onp.iscomplexobj(out) and A_dtype != complex:\n        out = onp.real(out)\n    return onp.asarray(out, dtype=A_dtype)")]),
+    ("container-basis-placed-by-space-equality", {"C13": "A14.vspace"}, [(BU, "        for i, vs in self._kv_pairs(self.shape):\n            for x in vs.standard_basis():\n                yield self._subval(zero, i, x)", "        for slot in self._values(self.shape):\n            for x in slot.standard_basis():\n                yield self._map(lambda vs, z: x if vs == slot else z, zero)")]),
+    ("container-basis-swapped-key", {"C13": "A14.vspace"}, [(BU, "                yield self._subval(zero, i, x)", "                yield self._subval(x, i, zero)")]),
     ("container-space-loses-subval", {"C12": "A1.spaces"}, [(BU, "    def _subval(self, xs, idx, x):\n        d = dict(xs.items())\n        d[idx] = x\n        return d\n", "")]),
 ]
 
 BENIGN = [
+    ("container-basis-yield-from", [(BU, "        for i, vs in self._kv_pairs(self.shape):\n            for x in vs.standard_basis():\n                yield self._subval(zero, i, x)", "        for key, child in self._kv_pairs(self.shape):\n            yield from (self._subval(zero, key, e) for e in child.standard_basis())")]),
+    ("dot-adjoint-kind-by-issubdtype", [(NV, "    return onp.asarray(out, dtype=A_dtype)", "    if onp.iscomplexobj(out) and not onp.issubdtype(A_dtype, onp.complexfloating):\n        out = onp.real(out)\n    return onp.asarray(out, dtype=A_dtype)")]),
     ("toposort-counting-in-nested-helper", [("autograd/util.py", "    child_counts = {}\n    stack = [end_node]\n    while stack:\n        node = stack.pop()\n        if node in child_counts:\n            child_counts[node] += 1\n        else:\n            child_counts[node] = 1\n            stack.extend(parents(node))\n", "    child_counts = {}\n    stack = [end_node]\n\n    def visit(node):\n        if node in child_counts:\n            child_counts[node] += 1\n        else:\n            child_counts[node] = 1\n            stack.extend(parents(node))\n\n    while stack:\n        visit(stack.pop())\n")]),
     ("index-order-membership-test", [(NV, '    if order not in ("A", "K"):\n        return order\n    flags = onp.asarray(getval(x)).flags', '    if order != "A" and order != "K":\n        return order\n    flags = onp.asarray(getval(x)).flags')]),
     ("ravel-vjp-order-resolved-at-forward-time", [(NV, "defvjp(anp.ravel, lambda ans, x, order=None: lambda g: anp.reshape(g, anp.shape(x), order=index_order(x, order)))", "def _grad_ravel(ans, x, order=None):\n    how = index_order(x, order)\n    return lambda g: anp.reshape(g, anp.shape(x), order=how)\n\n\ndefvjp(anp.ravel, _grad_ravel)")]),
